@@ -3,13 +3,126 @@ package main
 import (
 	"go/ast"
 	"strconv"
+	"strings"
 
 	. "verifharness/tlib"
 )
 
 func main() { Main() }
 
-// AuthFacts: provider/auth/path_matcher.go, utils/scan/scanner.go
+// skeleton renders a function body as the source-ordered list of its statements: simple
+// statements as their source text, `if`/`for`/`switch`/`case` heads with their conditions, "end"
+// closing every block.  Comments and layout do not matter; any other edit changes the list.
+func skeleton(fd *ast.FuncDecl) []string {
+	if fd == nil || fd.Body == nil {
+		return nil
+	}
+	var out []string
+	var block func(b *ast.BlockStmt)
+	var stmt func(s ast.Stmt)
+	one := func(n ast.Node) string { return strings.Join(strings.Fields(Src(n)), " ") }
+	block = func(b *ast.BlockStmt) {
+		if b == nil {
+			return
+		}
+		for _, s := range b.List {
+			stmt(s)
+		}
+		out = append(out, "end")
+	}
+	stmt = func(s ast.Stmt) {
+		switch x := s.(type) {
+		case *ast.IfStmt:
+			h := "if "
+			if x.Init != nil {
+				h += one(x.Init) + "; "
+			}
+			out = append(out, h+one(x.Cond))
+			block(x.Body)
+			if x.Else != nil {
+				out = append(out, "else")
+				if eb, ok := x.Else.(*ast.BlockStmt); ok {
+					block(eb)
+				} else {
+					stmt(x.Else)
+				}
+			}
+		case *ast.ForStmt:
+			h := "for "
+			if x.Init != nil || x.Post != nil {
+				i, p := "", ""
+				if x.Init != nil {
+					i = one(x.Init)
+				}
+				if x.Post != nil {
+					p = one(x.Post)
+				}
+				c := ""
+				if x.Cond != nil {
+					c = one(x.Cond)
+				}
+				h += i + "; " + c + "; " + p
+			} else if x.Cond != nil {
+				h += one(x.Cond)
+			}
+			out = append(out, strings.TrimSpace(h))
+			block(x.Body)
+		case *ast.RangeStmt:
+			k, v := "_", "_"
+			if x.Key != nil {
+				k = one(x.Key)
+			}
+			if x.Value != nil {
+				v = one(x.Value)
+			}
+			out = append(out, "range "+k+", "+v+" "+x.Tok.String()+" "+one(x.X))
+			block(x.Body)
+		case *ast.SwitchStmt:
+			h := "switch"
+			if x.Init != nil {
+				h += " " + one(x.Init) + ";"
+			}
+			if x.Tag != nil {
+				h += " " + one(x.Tag)
+			}
+			out = append(out, h)
+			for _, c := range x.Body.List {
+				cc := c.(*ast.CaseClause)
+				if cc.List == nil {
+					out = append(out, "default")
+				} else {
+					var es []string
+					for _, e := range cc.List {
+						es = append(es, one(e))
+					}
+					out = append(out, "case "+strings.Join(es, ", "))
+				}
+				for _, s2 := range cc.Body {
+					stmt(s2)
+				}
+				out = append(out, "end")
+			}
+			out = append(out, "end")
+		case *ast.BlockStmt:
+			out = append(out, "block")
+			block(x)
+		case *ast.EmptyStmt:
+		default:
+			out = append(out, one(s))
+		}
+	}
+	block(fd.Body)
+	return out
+}
+
+func sig(fd *ast.FuncDecl) string {
+	if fd == nil {
+		return ""
+	}
+	return strings.Join(strings.Fields(Src(fd.Type)), " ")
+}
+
+// AuthFacts: provider/auth/path_matcher.go, provider/auth/user.go, utils/scan/scanner.go
 func init() {
 	Register("AuthFacts", func(e *Emitter) {
 		pm := Parse("provider/auth/path_matcher.go")
@@ -47,10 +160,68 @@ func init() {
 		sc := Parse("utils/scan/scanner.go")
 		semi := ""
 		if call, isCall := TopValue(sc, "Semicolon").(*ast.CallExpr); isCall && len(call.Args) == 2 {
-			semi = Src(call.Args[0]) + "," + Src(call.Args[1])
+			semi = Src(call.Fun) + "(" + Src(call.Args[0]) + "," + Src(call.Args[1]) + ")"
 		} else {
 			e.Unknown("scan.Semicolon")
 		}
 		e.P("def semicolonScanner : String := %s", LeanStr(semi))
+
+		// the bodies of the functions the model mirrors, statement by statement
+		us := Parse("provider/auth/user.go")
+		type fn struct {
+			lean string
+			file *ast.File
+			recv string
+			name string
+		}
+		for _, f := range []fn{
+			{"NewPathMatcher", pm, "", "NewPathMatcher"},
+			{"Match", pm, "pathMacher", "Match"},
+			{"AlwaysMatch", pm, "alwaysMatcher", "Match"},
+			{"partCount", pm, "", "partCount"},
+			{"initMatchers", us, "", "initMatchers"},
+			{"userInit", us, "User", "init"},
+			{"ValidatePermission", us, "User", "ValidatePermission"},
+			{"CopyFrom", us, "User", "CopyFrom"},
+			{"Scan", sc, "Scanner", "Scan"},
+			{"NewScanner", sc, "", "NewScanner"},
+		} {
+			fd := FuncDecl(f.file, f.recv, f.name)
+			if fd == nil {
+				e.Unknown("func " + f.lean)
+			}
+			e.P("/-- %s %s -/", f.name, sig(fd))
+			e.P("def pmSkel_%s : List String := %s", f.lean, LeanStrList(skeleton(fd)))
+		}
+		// the two right constants: PullRight = 1 << iota, PushRight
+		rights := ""
+		if us != nil {
+			for _, d := range us.Decls {
+				g, isGen := d.(*ast.GenDecl)
+				if !isGen {
+					continue
+				}
+				for _, s := range g.Specs {
+					vs, isVal := s.(*ast.ValueSpec)
+					if !isVal || len(vs.Names) == 0 {
+						continue
+					}
+					if n := vs.Names[0].Name; n == "PullRight" || n == "PushRight" {
+						rights += n
+						if vs.Type != nil {
+							rights += " " + Src(vs.Type)
+						}
+						for _, v := range vs.Values {
+							rights += " = " + strings.Join(strings.Fields(Src(v)), " ")
+						}
+						rights += ";"
+					}
+				}
+			}
+		}
+		if rights == "" {
+			e.Unknown("AccessRight constants")
+		}
+		e.P("def accessRights : String := %s", LeanStr(rights))
 	})
 }
